@@ -951,7 +951,7 @@ pub fn run(cfg: &Cfg) -> i32 {
         ev.extra.push(("api_level_lists_judged".into(), J::U(api_evals)));
     }
     ev.extra.push(("load_level_cases".into(), J::U(cases.len() as u64)));
-    crate::memcheck::run(cfg, &mut ev, crate::memcheck::Leg { processes: 16, modulus: 16, limit: Duration::from_secs(900) });
+    crate::memcheck::run(cfg, &mut ev, crate::memcheck::Leg { processes: 16, modulus: 64, limit: Duration::from_secs(700) });
 
     let mut required: Vec<String> = SITES.iter().map(|s| format!("site={}", s.name())).collect();
     for s in SITES {
